@@ -162,6 +162,7 @@ def enterPass (s : St) (pc : Pc) : St :=
 def stepCall (s : St) : Api → Option St
   | .start =>
     if s.pc ≠ .idle then none
+    else if s.shutdown then none                                             -- Start after Shutdown: not modelled
     else if s.locked then some { s with pc := .done .start false }          -- "module system already started"
     else
       let s := { s with locked := true }
@@ -171,6 +172,7 @@ def stepCall (s : St) : Api → Option St
     if s.pc ≠ .idle then none
     else if !s.mgmt then some { s with pc := .done .manage true }           -- management disabled: nothing happens
     else if !s.locked then none                                              -- ManageModules before Start: not modelled
+    else if s.shutdown then none                                             -- ManageModules after Shutdown: not modelled
     else some (enterPass (buildEnabledTree s) .stopM)
   | .shutdown =>
     if s.pc ≠ .idle then none
